@@ -62,7 +62,11 @@ func (c *Client) Produce(args ProduceArgs) (enc.Name, error) {
 	}
 
 	// TODO: sign the data
-	basename := append(args.Name, enc.NewVersionComponent(version))
+	// every name built below gets its own backing array: appending to the caller's
+	// slice (or to basename) would let a later append overwrite an earlier name
+	objname := args.Name[:len(args.Name):len(args.Name)]
+	basename := append(objname, enc.NewVersionComponent(version))
+	basename = basename[:len(basename):len(basename)]
 	signer := sec.NewSha256Signer()
 
 	// use a transaction to ensure the entire object is written
@@ -107,7 +111,7 @@ func (c *Client) Produce(args ProduceArgs) (enc.Name, error) {
 	}
 
 	{ // write metadata packet
-		name := append(args.Name,
+		name := append(objname,
 			enc.NewStringComponent(enc.TypeKeywordNameComponent, "metadata"),
 			enc.NewVersionComponent(version),
 			enc.NewSegmentComponent(0),
